@@ -6,8 +6,8 @@
    program load error"; Run/TailCounters.v (the tailer's log_lines_total and
    log_count and the hand-over of every sent line to the loader's lines_total,
    a stream being the LineReader specification of Tail/LineReader.v). *)
-From V Require Import Metrics.StoreAdd Run.Loader Run.Counters Run.TailCounters Proofs.CountersProofs
-  Proofs.TailCountersProofs.
+From V Require Import Metrics.StoreAdd Run.Loader Run.Counters Run.TailCounters Run.Shutdown
+  Proofs.CountersProofs Proofs.TailCountersProofs Proofs.ShutdownProofs.
 Local Open Scope N_scope.
 
 (* For every history of loads (any text: new, identical, not compiling,
@@ -85,6 +85,105 @@ Example C25_tail_example :
   (counted ts a, ts_log_count ts, map snd (ts_out ts)) = (4, 0%Z, [[120]; [121]; []; [122]]).
 Proof. vm_compute. reflexivity. Qed.
 
+(* ---- the end of a run (Run/Shutdown.v) ----
+   A history is any interleaving the channels allow of: the tailer's sends,
+   its close of the channel, the hand-over of the line the loader holds out to
+   a program whose VM is ready, a VM finishing its line, and the loader's
+   receive reporting the closed channel.  The close may come anywhere after
+   the last send, in particular while the loader still holds the last line out
+   to a VM that is busy with the previous one. *)
+
+(* For every set of running programs and every history: once shutdown is
+   complete (the loader saw the close, every VM has returned) lines_total is
+   the number of lines the tailer sent, and every running program has executed
+   exactly the lines sent, each once, in order -- whatever the position of the
+   close relative to the fan-out of the last line. *)
+Theorem C25_final_counts_exact :
+  forall (names : list bytes) (acts : list act) (cs : cstate),
+    crun (cinit names) acts = Some cs -> finished cs = true ->
+    cs_lines cs = N.of_nat (length (sends acts)) /\
+    forall p, In p names ->
+      exists v, blookup p (cs_vms cs) = Some v /\ vm_busy v = None /\ vm_done v = sends acts.
+Proof. exact final_counts_exact. Qed.
+
+(* in every reachable state, not only the last: lines_total is the number of
+   sends that completed *)
+Theorem C25_lines_total_tracks_sends :
+  forall (names : list bytes) (acts : list act) (cs : cstate),
+    crun (cinit names) acts = Some cs ->
+    cs_lines cs = N.of_nat (length (sends acts)) /\ cs_sent cs = sends acts.
+Proof. exact lines_track_sends. Qed.
+
+(* after the close no line is counted (and none can be sent), whatever happens *)
+Theorem C25_nothing_counted_after_close :
+  forall (acts : list act) (cs cs' : cstate),
+    crun cs acts = Some cs' -> cs_closed cs = true ->
+    cs_lines cs' = cs_lines cs /\ cs_sent cs' = cs_sent cs /\ sends acts = [].
+Proof. exact nothing_after_close. Qed.
+
+(* no position of the close is a dead end: after any history in which the
+   channel is still open the tailer may close it, the run can then be
+   completed, and lines_total ends as the number of lines sent before *)
+Theorem C25_close_anywhere_completes :
+  forall (names : list bytes) (acts : list act) (cs : cstate),
+    NoDup names -> crun (cinit names) acts = Some cs -> cs_closed cs = false ->
+    exists more cs', crun (cinit names) (acts ++ AClose :: more) = Some cs' /\ finished cs' = true /\
+      cs_lines cs' = N.of_nat (length (sends acts)).
+Proof. exact close_anywhere_completes. Qed.
+
+(* a whole run: any history of loads (new, identical, not compiling, refused),
+   unloads, lines and GC passes, then the end of the run over the programs
+   running at that point in any interleaving: with every VM's executed lines
+   applied to its program, each counter is the number of its events in the
+   history followed by the lines sent at the end *)
+Theorem C25_shutdown_counters_exact :
+  forall (c1 omit : bool) compile vmstep (ops : list op) (acts : list act) (cs : cstate),
+    let st0 := run_from c1 true omit compile vmstep st_empty ops in
+    crun (cinit (live st0)) acts = Some cs -> finished cs = true ->
+    let st := settle vmstep st0 cs in
+    let evs := events c1 true omit compile vmstep st_empty (ops ++ map oline (sends acts)) in
+    st_lines st = count EvLine evs /\
+    forall p,
+      ps_loads (getp p st) = count (EvLoaded p) evs /\
+      ps_errs (getp p st) = count (EvLoadFailed p) evs /\
+      ps_unloads (getp p st) = count (EvUnloaded p) evs /\
+      ps_rterrs (getp p st) = count (EvRuntimeError p) evs.
+Proof. exact shutdown_counters_exact. Qed.
+
+(* non-vacuity: programs p and q; the channel is closed while the loader holds
+   the second line out to p, whose VM is still executing the first *)
+Example C25_shutdown_example :
+  let l1 : cline := (1, 1%Z) in let l2 : cline := (2, 2%Z) in
+  let acts := [ASend l1; AHand w_p; AHand w_q; AFinish w_q; ASend l2; AHand w_q; AClose;
+               AFinish w_p; AHand w_p; ASee; AFinish w_q; AFinish w_p] in
+  match crun (cinit [w_p; w_q]) acts with
+  | Some cs => (finished cs, cs_lines cs, done_of cs w_p, done_of cs w_q) = (true, 2, [l1; l2], [l1; l2])
+  | None => False
+  end.
+Proof. vm_compute. reflexivity. Qed.
+
+(* the same two lines with the close after everything has drained, and a step
+   the channels do not allow (a second hand-over of the same line) *)
+Example C25_shutdown_example_idle :
+  let l1 : cline := (1, 1%Z) in let l2 : cline := (2, 2%Z) in
+  (option_map cs_lines (crun (cinit [w_p; w_q]) (sched_late [w_p; w_q] [l1; l2])),
+   option_map cs_lines (crun (cinit [w_p; w_q]) (sched_early [w_p; w_q] [l1; l2])),
+   option_map cs_lines (crun (cinit [w_p; w_q]) [ASend l1; AHand w_p; AFinish w_p; AHand w_p]))
+  = (Some 2, Some 2, None).
+Proof. vm_compute. reflexivity. Qed.
+
+(* the whole-run statement on a concrete run: q raises a runtime error on every
+   line (its `del y after 5ns` finds no datum); two lines at the end *)
+Example C25_shutdown_counters_example :
+  let ops := [OLoad w_q 0; OLine 0 5] in
+  let st0 := run_from true true false w_compile w_vm st_empty ops in
+  let ls : list cline := [(0, 6%Z); (0, 7%Z)] in
+  match crun (cinit (live st0)) (sched_early (live st0) ls) with
+  | Some cs => (finished cs, st_lines (settle w_vm st0 cs), ps_rterrs (getp w_q (settle w_vm st0 cs))) = (true, 3, 3)
+  | None => False
+  end.
+Proof. vm_compute. reflexivity. Qed.
+
 Print Assumptions C25_counters_exact.
 Print Assumptions C25_stream_counted_exact.
 Print Assumptions C25_log_count_exact.
@@ -92,3 +191,11 @@ Print Assumptions C25_lines_total_exact.
 Print Assumptions C25_tail_example.
 Print Assumptions C25_refused_uncounted_refuted.
 Print Assumptions C25_counters_example.
+Print Assumptions C25_final_counts_exact.
+Print Assumptions C25_lines_total_tracks_sends.
+Print Assumptions C25_nothing_counted_after_close.
+Print Assumptions C25_close_anywhere_completes.
+Print Assumptions C25_shutdown_counters_exact.
+Print Assumptions C25_shutdown_example.
+Print Assumptions C25_shutdown_example_idle.
+Print Assumptions C25_shutdown_counters_example.
